@@ -1,4 +1,5 @@
 import SSVerif.Model.Nfa
+import SSVerif.Generated.LatticeConsts
 /-!
 # M12 — the word lattice (`src/fsg_search.c:1166-1524`, `src/ps_lattice.c`)
 
@@ -348,10 +349,15 @@ def bestpath (L : Lat) : Option (Link × Int × List Link) :=
 
 /-! ### A* -/
 
-/-- `WORST_SCORE` -/
-def worstScore : Int := -536870912
-/-- `MAX_PATHS` -/
-def maxPaths : Nat := 500
+/-- `WORST_SCORE` (regenerated from hmm.h on every run) -/
+def worstScore : Int := SSVerif.Generated.Lattice.worstScore
+/-- `MAX_PATHS` (regenerated from ps_lattice.c on every run) -/
+def maxPaths : Nat := SSVerif.Generated.Lattice.maxPaths
+
+/-- the model of `decoder_nbest` below is written for the call `astar_search_start(dag, 0, -1, -1, -1)`:
+seeds are the nodes starting at frame 0 and the end frame defaults to `n_frames + 1`; the arguments
+are regenerated from decoder.c, so a changed call breaks this obligation -/
+theorem nbest_call_tied : SSVerif.Generated.Lattice.nbestSf = 0 ∧ SSVerif.Generated.Lattice.nbestEf < 0 := by decide
 
 /-- one round of `best_rem_score` over a table of successor values: `0` for the end node, else the
 best of `rem(to) + ascr` over the exits, `worstScore` when there is none (l.1067-1074) -/
@@ -440,9 +446,14 @@ def remTable (L : Lat) : Nat → Int :=
   let T := remLevel L (L.nframes + 2)
   fun v => T.getD v worstScore
 
+/-- (the table is computed once and captured by the closure; `remTable L` is the same function) -/
 def nbest (L : Lat) (k : Nat) (fuel : Nat := 10000) : List APath :=
-  let rem := remTable L
+  let T := remLevel L (L.nframes + 2)
+  let rem := fun v => T.getD v worstScore
   nbestGo L rem maxPaths fuel k (astarStart L rem maxPaths)
+
+theorem nbest_eq (L : Lat) (k fuel : Nat) :
+    nbest L k fuel = nbestGo L (remTable L) maxPaths fuel k (astarStart L (remTable L) maxPaths) := rfl
 
 /-! ### exact forward / backward (weights are natural numbers: numerators over a common denominator) -/
 
